@@ -49,6 +49,9 @@ def cases_(draw):
     if len(pkg) >= 2 and draw(st.integers(0, 3)) == 0:
         # a later step of the same flow drops one of the dumped resources
         c['then_delete'] = draw(st.integers(0, len(pkg) - 1))
+    elif draw(st.integers(0, 3)) == 0:
+        # a later step of the same flow stops reading every resource after its first row
+        c['then_head'] = True
     if draw(st.integers(0, 5)) == 0:
         o = {}
         gen_dump.per_resource_formats(draw, pkg, o)     # force_format=False: the format each path names
@@ -108,6 +111,12 @@ def check(case, ctx):
                 tail = []
                 if case.get('then_delete') is not None:
                     tail = [dataflows.delete_resource([pkg[case['then_delete']]['name']])]
+                if case.get('then_head'):
+                    def first_row_only(rows):
+                        for r in rows:
+                            yield r
+                            return
+                    tail = [first_row_only]
                 Flow(FeedStep(desc, tables), dataflows.dump_to_path(out, **kw), *tail).process()
         return fn
     out0 = os.path.join(root, 'rec')
